@@ -8,7 +8,7 @@ import (
 // components: the byte-level layers over sources that end in a fault (persistent, or one error
 // once and then another one), real code vs the Gallina model of Model/Chunk.v.
 func components(r *vh.Rng, o *vh.Opts, sum *vh.Summary, cw *vh.CaseWriter) {
-	n := o.Count(200, 12000)
+	n := o.Count(200, 4000)
 	for i := 0; i < n; i++ {
 		iox.Component(r, sum, cw, true)
 	}
